@@ -62,7 +62,8 @@ theorem bypass_during_cooldown (cfg : Cfg) (hw : cfg.wf = true) (t0 : Nat) (is :
     (hin : o.t < f.t + cfg.coolTicks) :
     o.out.sent = [.direct] ∧ o.out.result = directResult o.inp := by
   have h := c19_holds_modulo_F19a cfg hw t0 is
-  rw [holdsModulo, hrun, holdsModuloFrom_append, holdsModuloFrom_append, holdsModuloFrom_append] at h
+  rw [holdsModulo, hrun, holdsModuloFrom_append cfg pre, holdsModuloFrom_append cfg (init ++ [f]),
+    holdsModuloFrom_append cfg mid] at h
   simp only [Bool.and_eq_true] at h
   obtain ⟨_, _, hmidok, hrest⟩ := h
   have htrip := trip_after_fails cfg (pre.foldl (Ref.next cfg) Ref.init) init f hfail hlen
@@ -76,7 +77,8 @@ theorem bypass_during_cooldown (cfg : Cfg) (hw : cfg.wf = true) (t0 : Nat) (is :
   · simp only [eventOk, cooldownRespected, hopen, Bool.and_eq_true, Bool.not_true, Bool.false_or,
       Bool.not_eq_true'] at hev
     exact noSwallow_direct_only o hev.1.1.1 hev.1.1.2
-  · simp [excused, hopen] at hev
+  · simp only [excused, hopen, Bool.not_true, Bool.false_and] at hev
+    exact absurd hev (by simp)
 
 /-- `n` consecutive gateway-side failures of routed calls, with nothing between them, and the next
     call (inside the cool-down) is sent directly. -/
@@ -102,7 +104,8 @@ theorem retries_after_cooldown (cfg : Cfg) (hw : cfg.wf = true) (t0 : Nat) (is :
     (hroute : shouldRoute cfg o.inp.host o.inp.hdr = true) :
     gwTried o = true := by
   have h := c19_holds_modulo_F19a cfg hw t0 is
-  rw [holdsModulo, hrun, holdsModuloFrom_append, holdsModuloFrom_append, holdsModuloFrom_append] at h
+  rw [holdsModulo, hrun, holdsModuloFrom_append cfg pre, holdsModuloFrom_append cfg (init ++ [f]),
+    holdsModuloFrom_append cfg mid] at h
   simp only [Bool.and_eq_true] at h
   obtain ⟨_, _, hmidok, hrest⟩ := h
   have htrip := trip_after_fails cfg (pre.foldl (Ref.next cfg) Ref.init) init f hfail hlen
@@ -145,40 +148,29 @@ theorem routed_when_closed (cfg : Cfg) (hw : cfg.wf = true) (t0 : Nat) (is : Lis
 /-- A successful call through the gateway clears the failure count (any state, any call). -/
 theorem success_resets (cfg : Cfg) (s : St) (c : CallIn)
     (h : (call cfg s c).2.result = .respGw) : (call cfg s c).1.cnt = 0 := by
-  unfold call at h ⊢
-  split at h
-  · split at h
-    · simp at h
-    · split at h
-      · rfl
-      · simp at h
-      · simp only [directLeg] at h; cases hd : c.direct <;> simp [directResult, hd] at h
-      · simp only [directLeg] at h; cases hd : c.direct <;> simp [directResult, hd] at h
-    · simp only [directLeg] at h; cases hd : c.direct <;> simp [directResult, hd] at h
-  · simp only [directLeg] at h; cases hd : c.direct <;> simp [directResult, hd] at h
+  rcases call_cases cfg s c with ⟨_, e⟩ | ⟨_, x, e⟩ | ⟨_, x, e⟩ | ⟨_, x, e⟩ <;> rw [e] at h ⊢
+  · exact absurd h (directResult_ne_respGw c)
+  · simp at h
+  · exact absurd h (directResult_ne_respGw c)
+  · unfold gwLeg at h ⊢
+    cases hg : c.gw <;> simp only [hg] at h ⊢ <;>
+      first | rfl | exact absurd h (directResult_ne_respGw c) | (simp at h)
 
 /-- An exception outside `handle_on` raised on the gateway leg is re-raised to the application,
-    the provider is not contacted, and the failure counter and breaker flag are left as
-    `state_ok` found them. -/
+    the provider is not contacted, and the failure counter, the breaker flag and the cool-down
+    start are left as `state_ok` found them. -/
 theorem foreign_errors_propagate (cfg : Cfg) (s : St) (c : CallIn)
     (hg : c.gw = .appExc) (hs : (call cfg s c).2.sent.contains .gw = true) :
     (call cfg s c).2 = ⟨[.gw], .raiseGwApp⟩ ∧ (call cfg s c).1.cnt = s.cnt ∧
     (call cfg s c).1.ok = (stateOk cfg s).ok ∧ (call cfg s c).1.start = s.start := by
-  have hcnt : (stateOk cfg s).cnt = s.cnt := by unfold stateOk; split <;> rfl
-  have hst : (stateOk cfg s).start = s.start := by unfold stateOk; split <;> rfl
-  unfold call at hs ⊢
-  split
-  · rename_i hok
-    simp only [hok, if_true] at hs
-    split
-    · rename_i he; simp [he] at hs
-    · rename_i cache he
-      simp only [he, hg] at hs ⊢
-      exact ⟨rfl, hcnt, rfl, hst⟩
-    · rename_i cache he
-      simp [he, directLeg] at hs
-  · rename_i hok
-    simp [hok, directLeg] at hs
+  obtain ⟨hc, hst, _⟩ := stateOk_fields cfg s
+  rcases call_cases cfg s c with ⟨_, e⟩ | ⟨_, x, e⟩ | ⟨_, x, e⟩ | ⟨_, x, e⟩ <;> rw [e] at hs ⊢
+  · simp [directLeg] at hs
+  · simp at hs
+  · simp [directLeg] at hs
+  · unfold gwLeg
+    rw [hg]
+    exact ⟨rfl, hc, rfl, hst⟩
 
 /-- Nothing is swallowed, whatever the state: if the provider was contacted the application gets
     the provider's answer or exception; an application exception on the gateway leg reaches the
@@ -188,13 +180,12 @@ theorem never_swallow (cfg : Cfg) (s : St) (c : CallIn) :
     ((call cfg s c).2.sent.contains .gw = true → c.gw = .appExc →
         (call cfg s c).2.result = .raiseGwApp) ∧
     ((call cfg s c).2.sent = [] → ∃ e, (call cfg s c).2.result = .raiseDec e) := by
-  unfold call
-  split
-  · split
-    · rename_i e he; simp
-    · cases hg : c.gw <;> simp [directLeg]
-    · simp [directLeg]
+  rcases call_cases cfg s c with ⟨_, e⟩ | ⟨_, x, e⟩ | ⟨_, x, e⟩ | ⟨_, x, e⟩ <;> rw [e]
   · simp [directLeg]
+  · simp
+  · simp [directLeg]
+  · unfold gwLeg
+    cases hg : c.gw <;> simp [directLeg]
 
 /-- On every run, every event either satisfies `noSwallow` (the application receives the answer or
     exception of the last leg contacted, a gateway-side failure falls through to the provider) or
@@ -302,7 +293,8 @@ example : cfg21.wf = true ∧
     holds cfg21 (run cfg21 (St.init 100) [fail1, fail2, .adv 7, good, .adv 1, good]) = true := by
   refine ⟨by decide, ?_, by decide⟩
   intro c hc
-  simp only [List.mem_cons, Input.call.injEq, List.not_mem_nil, or_false, reduceCtorEq, false_or] at hc
+  simp only [fail1, fail2, good, List.mem_cons, Input.call.injEq, List.not_mem_nil, or_false, reduceCtorEq,
+    false_or] at hc
   rcases hc with rfl | rfl | rfl | rfl <;> decide
 
 /-- `success_resets` / `foreign_errors_propagate`: one failure, an application exception on the
